@@ -253,7 +253,7 @@ def run(ctx):
         ctx.holds(r4, f"{PDF}::Model.__init__", "viewer sizes [nmaindata, nauxdata]")
     else:
         ctx.violated(r4, init, "sizes", "the main|aux viewer is not sized [nmaindata, nauxdata] in that order", found=str(szs), node=init.node)
-    for mname, idx in (("expected_actualdata", 0), ("mainlogpdf", 0), ("expected_auxdata", 1), ("constraint_logpdf", 1)):
+    for mname, idx in (("expected_actualdata", 0), ("mainlogpdf", 0), ("expected_auxdata", 1), ("constraint_logpdf", 1), ("expected_data", 0)):  # expected_data: the arm without auxiliary data
         m = model.methods[mname]
         subs = [A.const_value(n.slice) for n in ast.walk(m.node) if isinstance(n, ast.Subscript) and isinstance(n.value, ast.Call) and A.call_attr(n.value) == "make_pdf"]
         if subs == [idx]:
